@@ -60,6 +60,32 @@ theorem regular_stack_recognised (ori : List Rat) (oo : Ori) (hori : Ori.ofList 
   rw [getVolumePositions_rows _ js hlen ori oo hori hcv op hconv hopts]
   exact volumePositionsOf_regular o _ hn hs js hN hmem op hsort hmiss hdup hr ha
 
+/-- **a single plane is a volume** by stipulation: spacing = the hint (absolute value) or 1, index 0 — answered before
+the orientation is even looked at -/
+theorem single_plane_recognised (p : V3) (ori : List Rat) (op : Opts) {hint : Option Rat} {rtol atol : Rat}
+    (hopts : normaliseOpts op = .ok (hint, rtol, atol)) :
+    getVolumePositions [rowOf p] ori op = .ok (some (hint.getD 1, [0])) := by
+  have hrow : rowsToV3 [rowOf p] = .ok [p] := rowsToV3_rowOf [p]
+  unfold getVolumePositions
+  simp [hopts, hrow, bind, Except.bind, pure, Except.pure]
+
+/-- several frames at ONE position (declared duplicates) likewise: spacing = hint or 1, every index 0 -/
+theorem one_position_recognised (nrm p : V3) (n : Nat) (op : Opts) (hsort : op.sort = true)
+    (hdup : op.allowDuplicate = true) (hint : Option Rat) (rtol atol : Rat) :
+    volumePositionsOf nrm (List.replicate (n + 1) p) op hint rtol atol
+      = .ok (some (hint.getD 1, List.replicate (n + 1) 0)) := by
+  have hu : uniqueRows (List.replicate (n + 1) p) = [p] := by
+    have h1 : uniqueRows [p] = [p] := rfl
+    rw [← h1]
+    apply uniqueRows_congr
+    intro q
+    simp only [List.mem_replicate, List.mem_singleton]
+    constructor
+    · rintro ⟨_, rfl⟩; rfl
+    · rintro rfl; exact ⟨by omega, rfl⟩
+  unfold volumePositionsOf
+  simp [hdup, hu, hsort, pure, Except.pure, List.map_replicate]
+
 /-- **the indices order the planes along the positive normal**: in the answer for a regular stack, a row has a
 smaller index exactly when it lies at a smaller distance along the normal of the requested convention. -/
 theorem order_positive_normal (o nrm : V3) (hn : nrm.dot nrm = 1) {s : Rat} (hs : 0 < s) (i j : Nat) :
